@@ -19,6 +19,11 @@ ENGINES["scn"] = {"path": "harness/src/scn.rs (+ prog.rs)",
 ENGINES["pe"] = {"path": "harness/src/pe.rs",
     "kind": "PE x64: writer for .pdata / UNWIND_INFO (.xdata) and .text; synthesized programs over the MS prolog/epilog grammar (push non-volatiles, alloc small/large, set frame register, save non-volatile by mov, functions split into chained fragments, leaf functions without table entry), walks with ground truth at every instruction boundary (prolog, body, epilog); differential part on arbitrary registers/stacks incl. unusual codes (xmm, machine frame, raw large allocations) against the Lean model and against pe-unwind-info's reference implementation of the Microsoft procedure; exhaustive register-order sweep through the hooks"}
 
+ENGINES["macho"] = {"path": "harness/src/macho.rs (+ prog.rs)",
+    "kind": "Mach-O: writer for __unwind_info (regular and compressed second-level pages, global and page-local opcode tables, merged entries), opcode encoders incl. the register permutation, text bytes as __text or __TEXT, __eh_frame for DWARF-deferred entries, __stubs/__stub_helper ranges; synthesized programs (x86-64: frame-based, frameless immediate, frameless indirect, DWARF; arm64: frame-based with Apple's frame record placement, frameless leaf, DWARF, pacibsp/retab) with simulator ground truth: walks and single steps (caller sp/fp compared) at every instruction boundary of the innermost function, threads stopped inside __stubs and at every phase of __stub_helper; plus random tables (every opcode kind incl. invalid/unrecognised, text complete/partial/shifted/absent, bad FDE offsets) looked up at random addresses and states, compared with the Lean model answer by answer"}
+ENGINES["ana"] = {"path": "harness/src/macho.rs (run_ana)",
+    "kind": "the four instruction analysers through the verif_hooks::analyze_* hooks on generated functions (every pc), structured words from every instruction class the analysers distinguish (with boundary immediates and register fields) and byte soup, at aligned and unaligned pcs incl. pc = len; compared with the Lean model (anaX64/anaA64) byte for byte"}
+
 NOT_APPLICABLE = {}
 
 _NOTE = ("Trusted: Lean kernel; axioms propext/Classical.choice/Quot.sound only (audited per theorem on every run); "
@@ -132,6 +137,13 @@ PROPS = {
         "level_text": "Theorems: the three presentations resolve every relative address identically (hence the same plan); for pairwise disjoint FDEs in any section order the lookup finds the FDE covering the address (stable sort by start + last-start-not-above search, proved against containment); section order is irrelevant; addresses no FDE covers never get a row, in every presentation. Tie: every generated module is written in one of the three presentations with shuffled FDE order, several CIEs and mixed pointer encodings; the scn twins compare presentations directly.",
         "level_note": _NOTE + " gimli's EhHdrTable::lookup is trusted to return the last table entry whose initial location is not above the address (first entry if none); the table is written sorted, as linkers do.",
         "statement": "Same CFI, any presentation.",
+    },
+    "C02": {
+        "lean": ["FH.Props.C02"],
+        "engines": ["macho", "ana"],
+        "level_text": "Theorems (x86-64, for every choice and order of registers, legacy and REX encodings): stopped anywhere in `pop...; ret` the analysed rule restores exactly the rsp/rbp/return address the CPU will have (machine model runPops); stopped after any prefix of the prologue's pushes the rule finds the return address above them; after `push rbp; mov rbp, rsp; push...` it is the frame pointer rule; frameless opcodes give rules that execute the documented layout (rbp slot by position); dispatch: __stubs/__stub_helper precedence and first-frame-only, function starts are leaves, function bytes are exactly the function's slice of the text; __stub_helper tables equal the documented dyld_stub_binder layout on both architectures; arm64 body rules. arm64 prologue/epilogue word scans: partial - modelled (FH/AnaA64.lean) and tied by correspondence and ground truth, not proved sound against a machine model. Tie: ana (hooks, byte for byte) and macho (whole modules, ground-truth walks).",
+        "level_note": _NOTE + " macho-unwind-info's parser (UnwindInfo::lookup, opcode field extraction) is outside the model; the model takes the parsed opcode, recomputed by the harness with the real parser, and the writer exercises regular and compressed pages.",
+        "statement": "Mach-O compact unwind: x86-64 prologue/epilogue analysis sound for all push/pop sequences; body rules exact; dispatch order; stub tables; arm64 partial (bodies and stubs proved, word scans by correspondence).",
     },
     "C03": {
         "lean": ["FH.Props.C03"],
